@@ -1,6 +1,7 @@
 import ShootVerif.Model.Opt
 import ShootVerif.Proofs.CtorMain
 import ShootVerif.Proofs.Alloc
+import ShootVerif.Proofs.AllocMap
 /-!
 C13 — with -opt every field gets an option function that sets exactly that field; SetDefault
 assigns each `def=` value; T.With(opts…) and shoot.NewWith(opts…) apply the defaults first and then
@@ -122,5 +123,29 @@ example : (match Alloc.writeField [["Base"], ["Base", "Inner", "Deep"]] [] with 
 
 example : withM [("port", "8080")] [("port", .opt 0), ("host", .opt 1), ("port", .opt 2)] (fun _ => .init) "port" = .opt 2 := by decide
 example : withM [("port", "8080")] [("host", .opt 0)] (fun _ => .init) "port" = .defv "8080" := by decide
+
+/-- the chains the generated guards / allocation lines use are those of the struct: the stack scan of `makeNew`
+    over the generator's list pairs every field with exactly the embedded pointer structs on ITS way (none inherited
+    from a sibling), and the name-keyed `AllocMap` returns that chain when unshadowed promoted names are distinct -/
+theorem C13_alloc_chain (t : Tree) :
+    (allocScan [] (flatten t)).map (fun e => (e.1.name, e.1.depth, e.2)) =
+      ((leavesPtrs [] [] 0 t).filter (fun l => !l.2.2.1.skip)).map (fun l => (l.2.2.1.name, l.2.1, l.2.2.2.2)) := by
+  rw [allocScan_flatten, treeAllocs_ptrs]
+
+theorem C13_alloc_lookup (t : Tree) (e : Field × List (List String))
+    (he : e ∈ allocScan [] (flatten t)) (hvis : e.1.isShadowed = false) (hdep : e.1.depth ≠ 0)
+    (hnd : (((allocScan [] (flatten t)).filter (fun x => !x.1.isShadowed && x.1.depth != 0)).map (·.1.name)).Nodup) :
+    allocMapOf (flatten t) e.1.name = e.2 :=
+  allocMapOf_unique (flatten t) e he hvis hdep hnd
+
+/-- non-vacuity: a pointer embed that is NOT the last member of its parent; the sibling after it is not under it -/
+example :
+    let t : Tree := .embed "Header" "Header" false false
+      (.field { name := "Source" } (.embed "Trace" "Trace" true false (.field { name := "id" } .nil) (.field { name := "Version" } .nil)))
+      (.field { name := "body" } .nil)
+    (allocScan [] (flatten t)).map (fun e => (e.1.name, e.2)) =
+      [("Source", []), ("id", [["Header", "Trace"]]), ("Version", []), ("body", [])] ∧
+    allocMapOf (flatten t) "Version" = [] ∧ allocMapOf (flatten t) "id" = [["Header", "Trace"]] := by
+  decide
 
 end ShootVerif.Opt
